@@ -81,7 +81,7 @@ theorem iinv_step {b : Nat → Option Nat} {r0 : Nat} {w : World} (hi : Inv w) (
       simp only [step]
       split
       · split
-        · exact iinv_frame h rfl rfl rfl (by rename_i hp; simp [hp]) (Or.inl rfl)
+        · exact iinv_frame h rfl rfl rfl (by simp [toBackoff]) (Or.inl rfl)
         · exact iinv_frame h rfl rfl rfl (by simp [toBackoff]) (Or.inl rfl)
         · exact iinv_frame h rfl rfl rfl (by simp [toBackoff]) (Or.inl rfl)
         · exact h
